@@ -70,12 +70,12 @@ CLAIMS = {
             "The shared time-window rule check_time_windows == documented rule E1103 for <= 3 (thorough: 4) windows (found defect F2, fixed); TimeWindow::intersects == inclusive overlap. "
             "Job rules E1101/E1103/E1105/E1106/E1107: Err(code) iff the documented predicate is broken, over all four task kinds (one job, <= 2 tasks; found defect F3, fixed). Vehicle rules E1304 (reload windows may intersect each other, must touch the shift), E1306, E1307 against check_time_windows' contract (U10c). "
             "Relation rules E1200, E1201, E1202, E1204, E1205, E1206 with is_reserved_job_id (U10d), routing rules E1500..E1505 with the shared get_duplicates helper (U10e), id rules E1100, E1104, E1300 (U10g), objective rules E1600-E1604, E1606, E1607 over the real Objective enum (U10f): "
-            "each returns Err with its own code exactly when the documented rule is broken (bounded: 1-2 relations / profiles / vehicles / jobs, ids from a table of constant strings). The remaining rule functions (E1102, E1203, E1207, E1301, E1302, E1303, E1305, E1308, E1605), the rule-group assembly and the reader are not under contract.",
-            "Bounded Kani harnesses; std String / Vec / HashMap / HashSet replaced by stated stand-ins (env/strings.rs: picks from a table of constant strings; env/vec_fixed.rs; env/collections_fixed_n.rs); RFC3339 parsing, the JSON reader and 9 rule functions are NOT under contract.",
+            "each returns Err with its own code exactly when the documented rule is broken (bounded: 1-2 relations / profiles / vehicles / jobs, ids from a table of constant strings). The remaining rule functions (E1102, E1203, E1207, E1301, E1302, E1303, E1308, E1605), the rule-group assembly and the reader are not under contract.",
+            "Bounded Kani harnesses; std String / Vec / HashMap / HashSet replaced by stated stand-ins (env/strings.rs: picks from a table of constant strings; env/vec_fixed.rs; env/collections_fixed_n.rs); RFC3339 parsing, the JSON reader and 8 of the 38 rule functions are NOT under contract.",
             TECH_K + " (bounded)", "§3 C10"),
     "C12": ("model_checking",
             "Limits group of the checker only: check_shift_limits / check_shift_time / check_recharge_limits (verbatim) with CheckerContext::get_vehicle / get_vehicle_shift: a tour is accepted exactly when max distance, max shift time, tour size, "
-            "tour-inside-a-shift and distance-between-recharges hold; a reported violation names a limit that is really exceeded; a tour of an unknown vehicle is rejected (bounded: one tour of <= 3 stops, <= 2 shifts, integer values 0..9). "
+            "tour-inside-a-shift and distance-between-recharges hold; a tour of an unknown vehicle is rejected (bounded: one tour of <= 3 stops, <= 2 shifts, integer values 0..9). "
             "The other five rule groups (load, relations, breaks, assignment, routing) and CheckerContext::new / check are NOT under contract: a breach there is not detected.",
             "Bounded Kani harnesses; time strings are opaque tokens (parse_time is a projection), std String / Vec replaced by stated stand-ins, message text reduced to its template; 5 of the 6 rule groups are not under contract.",
             TECH_K + " (bounded)", "§3 C12"),
@@ -96,8 +96,8 @@ CLAIMS = {
             TECH_V, "§3 C16"),
     "C17": ("model_checking",
             "Density clustering create_clusters (dbscan.rs, verbatim): clusters pairwise disjoint, each grown from a core point, members density-reachable from it, everything density-reachable clustered, no core point unclustered, only input points - "
-            "on every one of the 64 neighbourhood graphs on 4 points for min_points 2 (quick) and 3 (thorough) (U17a). k-medoids (kmedoids.rs, verbatim, with the repository's sequential fold_reduce/map_reduce): "
-            "the result is a partition of all points in which no point is closer to another cluster's medoid than to its own (4 points, k = 2, <= 2 refinement rounds; U17b). "
+            "on the 64 neighbourhood graphs on 4 points for min_points 2 and 3 (thorough tier: all of them; quick tier: 32 graphs, min_points 2) (U17a). k-medoids (kmedoids.rs, verbatim, with the repository's sequential fold_reduce/map_reduce): "
+            "the result is a partition of all points in which no point is closer to another cluster's medoid than to its own (4 points, 64 constant distance tables in the thorough tier / 3 in the quick tier, k = 2, <= 2 refinement rounds; U17b). "
             "The Lin-Kernighan search (lkh/*: termination, permutation of the nodes, same start node, cost not above the input) is NOT under contract: CBMC does not finish on it even for a constant 5-node instance (DESIGN §1 P28).",
             "Bounded Kani harnesses; std hash collections and Vec replaced by stated stand-ins; LKH (a third of the property) is not decided; defect F4 (fixed) was in that part and no check of this family guards it.",
             TECH_K + " (bounded)", "§9 C17"),
